@@ -264,7 +264,7 @@ def link_syntax_layer(ck, m, quick):
     ck.extra['link_syntax_tails_that_are_links'] = links
 
 
-LINE_ALPHABETS = {'N1': ['a', '`'], 'N2': ['a', '*'], 'N3': ['a', '\\', '*']}      # first characters (a text begins with no space or line end)
+LINE_ALPHABETS = {'N1': ['a', '`'], 'N2': ['a', '*'], 'N3': ['a', '\\', '*'], 'N4': ['a', '<', '/']}      # first characters (a text begins with no space or line end)
 
 
 def observed_paragraph(m, text):
@@ -312,7 +312,7 @@ def inline_lines_layer(ck, m, quick):
                 ck.violation('inline content across lines: input=%r expected=%r observed=%r' % (text, rec['html'], got),
                              {'input': text, 'expected': rec['html'], 'observed': got, 'classes': sorted(rec['tags']),
                               'clause': 'Inline.lines' if not got.startswith('EXCEPTION') else 'Emphasis.failure'})
-    if n < 30000 or multi < 10000:
+    if n < 100000 or multi < 50000:
         raise core.MachineryError('InlineLines.tla exported only %d texts (%d of several lines)' % (n, multi))
     ck.extra['inline_lines_texts'] = n
     ck.extra['inline_lines_texts_of_several_lines'] = multi
